@@ -172,7 +172,8 @@ def statement_cases():
              ("a.say(a.s)", A), ("a.say(a.i)", R), ("a.take(a)", A), ("a.take(sub)", A),
              ("a.take(root)", R), ("a.take(null)", A), ("a.take(1)", R), ("a.act(1)", R),
              ("a.nosuch()", R), ("a.i()", R), ("a.act", R), ("a.done", R), ("a()", R), ("1()", R),
-             ("a.sayMode(VObj.M1)", A), ("a.sayMode(VObj.F0)", R), ("a.sayMode(1)", R),
+             ("a.sayMode(VObj.M1)", A), ("a.sayMode(VObj.F0)", R), ("a.sayMode(1)", R), ("a.sayMode(VObj.N1)", R),
+             ("a.sayMode(a.e2)", R),
              ("a.sayList(a.sl)", A), ("a.sayList([])", A), ('a.sayList(["x"])', A),
              ("a.sayList([1])", R), ('a.sayList(["x", 1])', R), ("a.sayBool(a.i)", R),
              ("a.sayDouble(1)", R), ("a.sayDouble(1.5)", A), ("a.sayUint(1)", A), ("a.sayUint(a.i)", R),
@@ -216,8 +217,8 @@ def statement_cases():
     for text, v in cbs:
         yield (f"callback:{text}", DOC.format(body=text), v)
     # result type vs bound property type
-    sinks = [("ri", "I"), ("ru", "U"), ("rd", "D"), ("rb", "B"), ("rs", "S"), ("re", "E"), ("rf", "F"),
-             ("rp", "P"), ("rsl", "L")]
+    sinks = [("ri", "I"), ("ru", "U"), ("rd", "D"), ("rb", "B"), ("rs", "S"), ("re", "E"), ("re2", "E2"),
+             ("rf", "F"), ("rp", "P"), ("rsl", "L")]
     leaves = list(rt.all_leaves()) + [("leaf", "L", '["x"]')]
     for (prop, k), leaf in itertools.product(sinks, leaves):
         v = rt.assignable(k, leaf[1])
@@ -225,6 +226,32 @@ def statement_cases():
         if leaf[1] not in ("void",):
             # same value through a block with return (the dynamic / block path)
             yield (f"bind-block:{prop}:{leaf[2]}", in_binding(prop, "{ return " + leaf[2] + "; }"), v)
+    # several return paths: the types of *all* of them must agree (literals adapt) and fit the sink
+    rl = [("leaf", k, rt.LEAVES[k][0][0]) for k in ("I", "n", "D", "S", "s", "P", "PS", "PW", "null", "L", "[]", "E", "E2")]
+    sink_of = {"I": "ri", "n": "ri", "D": "rd", "S": "rs", "s": "rs", "P": "rp", "PS": "rp", "PW": "rp",
+               "null": "rp", "L": "rsl", "[]": "rsl", "E": "re", "E2": "re2"}
+    kind_of_sink = dict((p, k) for p, k in sinks)
+    for x, y, z in itertools.product(rl, repeat=3):
+        prop = sink_of[z[1]] if z[1] not in ("null", "n", "s", "[]") else sink_of[x[1]]
+        ks = [x[1], y[1], z[1]]
+        u = ks[0]
+        verdict = A
+        for k in ks[1:]:
+            u2 = rt.unify(u, k)
+            if u2 == "related":
+                verdict = U
+                break
+            if u2 is None:
+                verdict = R
+                break
+            u = u2
+        if verdict == A:
+            verdict = rt.assignable(kind_of_sink[prop], u)
+            if u in ("null", "[]") or (verdict == R and (u, kind_of_sink[prop]) in rt.DERIVES):
+                verdict = U if u in ("null", "[]") else verdict
+        yield (f"returns:{prop}:{x[2]}|{y[2]}|{z[2]}",
+               in_binding(prop, "{ if (a.b) return " + x[2] + "; if (a.c) return " + y[2] + "; return " + z[2] + "; }"),
+               verdict)
     yield ("bind:return-mixed-types", in_binding("ri", "{ if (a.b) return 1; return 1.5; }"), R)
     yield ("bind:return-int-and-void", in_binding("ri", "{ if (a.b) return 1; }"), R)
     yield ("bind:read-only-target", in_binding("ro", "a.i"), R)
@@ -333,7 +360,7 @@ def shard_work(shard, nshards, payload):
         if k % nshards != shard:
             continue
         fam = label.split(":")[0]
-        judge(t, vd, f"stmt/{k}", fam, src, verdict, label.split("=")[0][:60] if fam in ("let", "const", "write", "bind", "bind-block") else label[:70])
+        judge(t, vd, f"stmt/{k}", fam, src, verdict, label.split("=")[0][:60] if fam in ("let", "const", "write", "bind", "bind-block") else (label.split("|")[0][:60] if fam == "returns" else label[:70]))
         if k % 400 == 0:
             t.sample({"label": label, "expected": verdict})
     return t
